@@ -103,7 +103,7 @@ def main(tier, only=None):
     chk.outside += [
         "capacities > 16, keys longer than %d bytes (hash only matters through home slots, all of which occur)" % KLEN,
         "the clients (macro table in preprocess.c, scopes in parse.c, include memo tables): only the map "
-        "specification they rely on is checked, not their call discipline",
+        "specification they rely on is checked, not their call discipline (except the driver's -D/-U discipline: history/cmdline)",
         "hashmap_put/get/delete strlen wrappers; hashmap_test",
     ]
     for cap in caps:
@@ -113,6 +113,19 @@ def main(tier, only=None):
         if not hs:
             continue
         e1.run_set(chk, "c17/step.c", hs, workers=int(os.environ.get("VERIF_WORKERS", "8")))
+    if not only or "history" in only or "cmdline" in only:
+        names = ["DA", "DB=2", "UA", "D_A=3", "U_B", "Ulinux", "Dunix=42"]
+        seqs = [(i,) for i in range(7)] + [(0, 2), (2, 0), (5, 6), (6, 5), (1, 4), (3, 0)] + ([(a_, b_, c_) for a_ in (0, 5) for b_ in (2, 6) for c_ in (3, 4)] if tier == "thorough" else [(0, 2, 3)])
+        chk.bounds += ["history/cmdline: `cc -c -o out.o <1..3 of 7 -D/-U spellings> a.c d/b.c` for %d listed option sequences (joined/separate, with/without body, predefined names); "
+                       "NO symbolic input here (cbmc does not finish parse_args on symbolically selected argv strings): the real main()/parse_args()/define() are executed on each "
+                       "listed command line and must issue init_macros first, then exactly the command line's operations in order" % len(seqs)]
+        hs = []
+        for sq in seqs:
+            pad = tuple(sq) + (0, 0, 0)
+            hs.append(e1.H("h_macro_history", "history/cmdline/" + "+".join(names[i] for i in sq), unwind=101, timeout=300,
+                           defines=("MH_N=%d" % len(sq), "MH_0=%d" % pad[0], "MH_1=%d" % pad[1], "MH_2=%d" % pad[2]),
+                           desc="operations issued on the macro table by the driver for this -D/-U command line"))
+        e1.run_set(chk, "c14/driver.c", hs, workers=8, extra_src=[os.path.join(vf.REPO, "strings.c")])
     history_replays(chk)
     if os.environ.get("VERIF_VERBOSE"):
         for o in chk.obl:
